@@ -188,8 +188,15 @@ def main():
                 h["id"] = "fault-bounceqq-%s-%d" % (call, k)
                 hists.append(h)
 
+    if os.environ.get("VERIF_ONLY_HIST"):          # debugging aid: run only the named histories (generation order, hence seeds, unchanged)
+        hists = [h for h in hists if str(h.get("id")) in os.environ["VERIF_ONLY_HIST"].split(",")]
     runs = qsengine.run_histories(ck, tree, hists)
     bad, vres = qsengine.judge(ck, runs)
+    if os.environ.get("VERIF_DUMP_EVENTS"):
+        for r in runs:
+            print("HISTORY", r["h"].get("id"), r["h"].get("conc"), r["h"].get("announce"), r["h"]["script"])
+            for k, e in enumerate(r["ev"]):
+                print("  EV %d %s" % (k + 1, {x: v for x, v in e.items() if v not in (0, "", []) and x not in ("b", "atab")}))
     ck.add_tlc("QSendTrace", vres)
     ck.cov["traces_validated_against_impl"] = len(runs)
     ck.cov["observable_events"] = sum(len(r["ev"]) for r in runs)
